@@ -273,17 +273,21 @@ func ruleC02RefSiblings(c *Ctx) {
 					if !isIf || !c.mentionsField(ifi.Cond, "Schema.Ref", 6) {
 						return
 					}
-					draftToo := c.mentionsField(ifi.Cond, "Resolved.draft", 6)
-					for _, g := range guardsOf(ifi) {
+					// the decision starts at the test of the draft (or at this test when it mentions both)
+					var entry *ssa.BasicBlock
+					if c.mentionsField(ifi.Cond, "Resolved.draft", 6) {
+						entry = ifi.Block()
+					}
+					for _, g := range guardsLocal(ifi) {
 						if c.mentionsField(g.Cond, "Resolved.draft", 6) {
-							draftToo = true
+							entry = g.At.Block()
 						}
 					}
-					if !draftToo {
+					if entry == nil || !entry.Dominates(call.Block()) {
 						return
 					}
 					for _, succ := range ifi.Block().Succs {
-						if succ != call.Block() && !core.Reachable(succ, call.Block(), map[*ssa.BasicBlock]bool{ifi.Block(): true}) && ifi.Block().Dominates(call.Block()) {
+						if succ != call.Block() && !core.Reachable(succ, call.Block(), map[*ssa.BasicBlock]bool{ifi.Block(): true}) {
 							okG = true
 						}
 					}
